@@ -158,7 +158,7 @@ impl Calendar {
         // last year whose start is <= n
         let lo = 1usize;
         let hi = (WALK_MAX_YEAR + 1) as usize;
-        debug_assert!(n >= self.year_start[lo] && n < self.year_start[hi]);
+        assert!(n >= self.year_start[lo] && n < self.year_start[hi], "reference calendar: day number {n} outside the walkable range");
         let idx = self.year_start[lo..=hi].partition_point(|&s| s <= n);
         let y = (lo + idx - 1) as i32;
         let mut rest = (n - self.year_start[y as usize]) as u32; // 0-based day of year
